@@ -8,4 +8,4 @@ try:
 except ImportError:
     HAVE_Z3 = False
 if HAVE_Z3:
-    from . import c08_lemmas, c01_lemmas, c19_lemmas, c03_lemmas, xr_lemmas, c07_lemmas, c14_lemmas, c17_lemmas  # noqa: F401
+    from . import c08_lemmas, c01_lemmas, c19_lemmas, c03_lemmas, xr_lemmas, c07_lemmas, c14_lemmas, c17_lemmas, c16_lemmas  # noqa: F401
